@@ -67,6 +67,7 @@ type SC struct {
 	Blocks    []*BlockSite
 	SubOps    []*SubOp
 	Teardowns []*TeardownRet
+	Stores    []*Store
 	Inlined   []*ast.FuncDecl // helper declarations inlined into this SC
 	Unknown   []string        // constructs the walker did not understand (fail-closed input for rules)
 	Frames    int
